@@ -89,3 +89,13 @@ CLAIMED["C01"] = (
     "how); sampled scripts (size classes concretised around each protocol's chunk limits) and randomised scripts (1 B .. MiB, pauses, three local handshake kinds, three close kinds, concurrent) are "
     "executed against the real binaries on a spread of README configurations (all 50 in the thorough tier) and each flow's observations (position-checked spans, dial, ends) are validated by TLC.",
     TBE, "5.1")
+CLAIMED["C15"] = (
+    "model_checking", "TLA+ TcpRelay with link-failure action (TLC: PromptEnd / Released / FaultEnds as liveness under weak fairness, deviations), ending scripts exported by TLC executed on real client/server processes behind a link-cutting middlebox, every flow and the Idle/Settled descriptor counts validated by TLC against TraceRelay",
+    "TLC checks on the code-shaped TcpRelay design (kernel pipes with reset semantics, four forward pumps, select + 2 s grace in both relays, QUIC "
+    "shutdown, TLS noise, link failure) that after any close, reset, failed dial or link failure the other side observes an end and both relays drop "
+    "the flow, for tcp, tls and quic links, and that JoinBoth / NoSinkClose / IgnoreLinkErr / DropOnFirstClose violate it; TLC enumerates every "
+    "ending script up to 5 steps (who closes first and how, where in the transfer, link cut by reset or orderly close, refused / unresolvable target); "
+    "sampled scripts and batches of 24 (thorough: 64) concurrent randomly ending flows with data in flight run on real processes behind a middlebox "
+    "that fails the link of one chosen flow; TLC validates every flow (complete delivery before an orderly end, prompt end on the other side) and that "
+    "the socket counts of client and server after each batch equal the idle baseline.",
+    TB + "; Engine B (lib/e2e.py) with lib.e2e.Middlebox; loopback only; tasks observed through the descriptors they hold", "5.15")
